@@ -213,6 +213,24 @@ static void job(int j)
 		{ char pre2[300]; int p2 = snprintf(pre2, sizeof pre2, "%cab.%.*s", "zZvq"[first], pl, pre); nl = under(name, pre2, p2, "w"); ask(name, nl, 10, 0); ask(name, nl, 16, 1); ask(name, nl, 1, 0); }
 		RAWLABEL = 0;
 	}
+	/* F6: query names that are too long as a whole (256..259 bytes on the wire, every label legal), under the tunnel domain:
+	 * again no answer is demanded, but what the server emits must be well-formed (a name of at most 255 bytes) */
+	for (int target = 256; target <= 259; target++) for (int first = 0; first < 2; first++) {
+		int dl = under(name, "", 0, "w");
+		int room = target - (dl + 2) - 1;
+		if (room < 2) continue;
+		int pl = 0, cur = 0;
+		while (room > 0) {
+			if (cur == 63 || room == 1) { if (room < 2) break; pre[pl++] = '.'; room -= 1; cur = 0; if (room < 2) { pl--; break; } }
+			if (cur == 0) room--;            /* the label's length byte */
+			{ char ch = pl == 0 ? "zv"[first] : (char)('a' + (pl % 26)); pre[pl++] = ch; } cur++; room--;
+		}
+		if (pl && pre[pl - 1] == '.') pl--;
+		int nl = under(name, pre, pl, "w");
+		RAWLABEL = 1;
+		for (int ty = 0; ty < NTYPES; ty++) ask(name, nl, TYPES[ty], ty & 1);
+		RAWLABEL = 0;
+	}
 	/* F3: names of maximal total length: 245..255 bytes on the wire, labels of 63/62/1 */
 	for (int target = 240; target <= 256; target++) for (int shape = 0; shape < 3; shape++) {
 		int dl = under(name, "", 0, "w");
